@@ -124,7 +124,12 @@ func (fs *FS) mountPoint(path string) (_ hackpadfs.FS, mountPoint, subPath strin
 // Open implements hackpadfs.FS
 func (fs *FS) Open(name string) (hackpadfs.File, error) {
 	mountFS, subPath := fs.Mount(name)
-	return mountFS.Open(subPath)
+	file, err := mountFS.Open(subPath)
+	if pathErr, ok := err.(*hackpadfs.PathError); ok && pathErr.Path == subPath {
+		// report the caller's path, not the path inside the mounted FS
+		err = &hackpadfs.PathError{Op: pathErr.Op, Path: name, Err: pathErr.Err}
+	}
+	return file, err
 }
 
 // Point represents a mount point, including any relevant metadata
@@ -159,7 +164,12 @@ func (fs *FS) Rename(oldname, newname string) error {
 	}
 
 	if oldPoint == newPoint {
-		return hackpadfs.Rename(oldMount, oldSubPath, newSubPath)
+		err := hackpadfs.Rename(oldMount, oldSubPath, newSubPath)
+		if linkErr, ok := err.(*hackpadfs.LinkError); ok {
+			// report the caller's paths, not the paths inside the mounted FS
+			err = &hackpadfs.LinkError{Op: linkErr.Op, Old: oldname, New: newname, Err: linkErr.Err}
+		}
+		return err
 	}
 	if oldInfo.IsDir() {
 		// TODO support renaming directories
